@@ -404,7 +404,8 @@ impl Renderable for TableRow {
             .trace_with(|| self.trace().into())?;
         let array = range.evaluate()?;
         let cols = evaluate_attr(&self.cols, runtime)?;
-        if cols == Some(0) {
+        // negative values arrive here as huge numbers
+        if matches!(cols, Some(cols) if cols == 0 || cols > i64::MAX as usize) {
             return Error::with_msg("Invalid argument")
                 .context("argument", "cols")
                 .context("cause", "Must be at least 1")
